@@ -78,7 +78,7 @@ func H_C17_matcher_errors() {
 	}
 	stamp := vxrt.FSStamp()
 	before := dumpDir(dir)
-	_ = isCI
+	forceInit()
 	failedBefore := testEvents.items[erred]
 	t := newT("TestM")
 	doc := `{"a":1}`
